@@ -96,6 +96,8 @@ type exec struct {
 	reconciles int
 	errors     int
 	requeues   int
+	xc         *sim.Client
+	ft         *composite.APIRevisionFetcher
 	switchN    int // position in the rotation of user edits of xr-switch
 	seenRevs   map[string]bool
 }
@@ -120,6 +122,7 @@ func newExec(c *kit.Ctx, coll *collector, h *history, w *sim.World, m *monitor) 
 	e := &exec{c: c, coll: coll, h: h, w: w, m: m}
 	w.AddHook(m.hook)
 	e.rc = w.Client(ctrlActor)
+	e.rc.CacheReads = true // the revision controller reads through the manager's informer cache
 	e.user = w.Client("user")
 	e.rec = composition.NewReconciler(xrk.NewManager(w, e.rc))
 	return e
@@ -456,11 +459,19 @@ func contains(ss []string, s string) bool {
 // the XR controller's client is faulted.
 func (e *exec) fetch(x xrSpec, k int, out sim.Outcome, label string) (calls int) {
 	w := e.w
-	xc := w.Client("xr")
+	// one fetcher per execution, as there is one per XR controller: whatever it remembers from one
+	// fetch to the next (and for one XR when serving another) is part of what is being observed. A
+	// fork (fault case) starts with a fresh one - a restarted controller.
+	if e.xc == nil {
+		e.xc = w.Client("xr")
+		e.ft = composite.NewAPIRevisionFetcher(resource.ClientApplicator{Client: e.xc, Applicator: resource.NewAPIPatchingApplicator(e.xc)})
+	}
+	xc, f := e.xc, e.ft
+	xc.ResetCalls()
+	xc.ClearFaults()
 	if out != sim.OK {
 		xc.Fault(k, out)
 	}
-	f := composite.NewAPIRevisionFetcher(resource.ClientApplicator{Client: xc, Applicator: resource.NewAPIPatchingApplicator(xc)})
 	xr := ucomposite.New(ucomposite.WithGroupVersionKind(v1GVK()))
 	xr.SetUnstructuredContent(w.GetObj(xrKey(x.Name)))
 	before := xrRef(w, x.Name)
@@ -684,7 +695,7 @@ func runHistory(c *kit.Ctx, coll *collector, h history, idx int) {
 	hfp := kit.Hash(kit.JSON(h))
 	revert := h.hasRevert()
 	// the fetcher's own calls are fault-enumerated for the fixed histories and every third random one
-	xrFaults := idx < len(baseHistories()) || idx%3 == 0
+	xrFaults := (idx < len(baseHistories()) || idx%3 == 0) && !h.NoFaults
 	root := newExec(c, coll, &h, buildWorld(&h, uint64(c.Seed)*100000+uint64(idx)), newMonitor(&h))
 
 	// fault-free run, snapshotting before every reconcile
@@ -729,6 +740,9 @@ func runHistory(c *kit.Ctx, coll *collector, h history, idx int) {
 		}
 	}
 
+	if h.NoFaults {
+		return
+	}
 	// fault enumeration: every reconcile x every call index x six outcomes
 	for sni, sn := range snaps {
 		for k := 0; k < sn.calls; k++ {
@@ -800,7 +814,7 @@ func main() {
 		c.Finish()
 	}
 
-	hs := baseHistories()
+	hs := append(baseHistories(), longHistory())
 	nRand := c.N(40, 400)
 	for i := 0; i < nRand; i++ {
 		hs = append(hs, randomHistory(c, i))
